@@ -62,6 +62,11 @@ pub struct StoreCore {
     pub snap_unavailable: bool,
     /// count of snapshot() calls (statistics)
     pub snapshots_served: u64,
+    /// number of upcoming reads with an async-capable context that are answered with
+    /// `LogTemporarilyUnavailable` (the application fetches them in the background)
+    pub fetch_unavailable: u8,
+    /// contexts of refused reads, to be handed to `RawNode::on_entries_fetched`
+    pub pending_fetch: Vec<GetEntriesContext>,
 }
 
 impl StoreCore {
@@ -78,6 +83,8 @@ impl StoreCore {
             },
             snap_unavailable: false,
             snapshots_served: 0,
+            fetch_unavailable: 0,
+            pending_fetch: vec![],
         }
     }
 
@@ -98,6 +105,8 @@ impl StoreCore {
             },
             snap_unavailable: false,
             snapshots_served: 0,
+            fetch_unavailable: 0,
+            pending_fetch: vec![],
         }
     }
 
@@ -260,20 +269,30 @@ impl Storage for SimStore {
         low: u64,
         high: u64,
         max_size: impl Into<Option<u64>>,
-        _context: GetEntriesContext,
+        context: GetEntriesContext,
     ) -> Result<Vec<Entry>> {
         let max_size = max_size.into();
+        {
+            let mut c = self.0.borrow_mut();
+            if low <= c.snap_index {
+                return Err(Error::Store(StorageError::Compacted));
+            }
+            if high > c.last_index() + 1 {
+                panic!(
+                    "SimStore: index out of bound (last: {}, high: {})",
+                    c.last_index() + 1,
+                    high
+                );
+            }
+            if c.fetch_unavailable > 0 && context.can_async() && low < high {
+                c.fetch_unavailable -= 1;
+                if c.pending_fetch.len() < 32 {
+                    c.pending_fetch.push(context);
+                }
+                return Err(Error::Store(StorageError::LogTemporarilyUnavailable));
+            }
+        }
         let c = self.0.borrow();
-        if low <= c.snap_index {
-            return Err(Error::Store(StorageError::Compacted));
-        }
-        if high > c.last_index() + 1 {
-            panic!(
-                "SimStore: index out of bound (last: {}, high: {})",
-                c.last_index() + 1,
-                high
-            );
-        }
         let lo = (low - c.snap_index - 1) as usize;
         let hi = (high - c.snap_index - 1) as usize;
         let mut ents = c.entries[lo..hi].to_vec();
